@@ -310,7 +310,7 @@ _amend('C10', 'Narrowing: a conversion to a narrower float format inside the ter
 _amend('C14', 'A step term that is not a next-after chain on the component is evaluated exactly at sample values and refuted when it is not the n-th neighbour in the component\'s own format.')
 _amend('C20', 'The five multiple functions are also analysed on one-point boxes at both ends of the signed 32- / 64-bit ranges (x = max - 1 and min + 2 with m = 3, where the answer is representable).')
 _amend('C10', 'The aligned double matrix types of the SSE2 configuration are analysed in the quick tier as well (the aligned inverse(mat3) for double runs on the generic vec4 cross-product overload).')
-_amend('C17', 'The SIMD swizzle specialisations are instantiated for float, int and uint (and double under AVX2 in the thorough tier).')
+_amend('C17', 'The SIMD swizzle specialisations are instantiated for float, int and uint (and double under AVX2 in the thorough tier), for 2-, 3- and 4-component results from aligned sources.')
 _amend('C15', 'The floor-based portable spellings of trunc and round (the pre-C++11 fallbacks) are read as the functions they are (exact identities), so those configuration pairs are proved rather than left undecided; the bit-pattern witness tries the half-way boundary inputs (predecessor of one half, odd integers of the last binade, signed zero).')
 _amend('C05', 'A findLSB / findMSB shape that does not normalise is evaluated (derived term) at members of the shape and refuted on a wrong value.')
 _amend('C06', 'Templated packHalf<L> / unpackHalf<L> lane plumbing; packRGBM / unpackRGBM against their definition (m = ceil(clamp(max(c) / 6, 0, 1) * 255) / 255, colour lanes (c / 6) / m, decoder rgb * m * 6).')
